@@ -75,7 +75,7 @@ impl Scenario {
     /// still fails is kept, so that the replay file names the fault point.
     pub fn narrow_candidates(&self, prop: &str) -> Vec<Scenario> {
         match self {
-            Scenario::StreamFault(s) if s.points == Points::All => {
+            Scenario::StreamFault(s) if s.points == Points::All || s.points == Points::Sample => {
                 match s.first_failing_point(prop) {
                     Some(k) => { let mut n = s.clone(); n.points = Points::One(k); vec![Scenario::StreamFault(n)] },
                     None => vec![],
@@ -115,6 +115,7 @@ pub fn generate(prop: &str, tier: Tier, rng: &mut Rng) -> Scenario {
         },
         "C14" => {
             match rng.below(10) {
+                0..=4 if rng.chance(1, if big { 100 } else { 250 }) => Scenario::StreamFault(StreamFault::generate_large(rng)),
                 0..=4 => {
                     let max_len = if big { *rng.pick(&[300usize, 1200, 4096]) } else { *rng.pick(&[120usize, 400, 1000]) };
                     Scenario::StreamFault(StreamFault::generate(rng, max_len))
@@ -135,7 +136,7 @@ pub fn generate(prop: &str, tier: Tier, rng: &mut Rng) -> Scenario {
             }
         },
         "C12" => Scenario::Writer(Writer::generate(rng, false, big)),
-        "C13" => Scenario::MapViews(MapViews::generate(rng, if big { 1500 } else { 300 }, false)),
+        "C13" => { let max_len = if rng.chance(1, 12) { 24_000 } else if big { 1500 } else { 300 }; Scenario::MapViews(MapViews::generate(rng, max_len, false)) },
         "C18" => Scenario::MapLife(MapLife::generate(rng, big)),
         "C20" => Scenario::NameVolume(NameVolume::generate(rng, big)),
         _ => panic!("sdsim: no generator for property {}", prop),
